@@ -35,7 +35,20 @@
       Python rejects is diagnosed whatever the callee's IR holds (empty included), up to the
       diagnostics of `Pipeline.run`;
     * `C04_mkCall_self` — `Call.from_call(…, self=x)` puts `x` in front of the positionals;
+      `C04_mkCall_unpacking_irrelevant` — a `**mapping` keyword entry, wherever written, changes nothing;
     * `C04_pipeline_test_module` — kernel evaluation of the whole pipeline model on one module.
+
+  The call AS WRITTEN and the diagnostic AS SHOWN (RattrModel/SrcCall.lean: `SrcCall.toArgs` =
+  `CallArguments.from_call`, `SrcCall.arityShown` = the arity diagnostics through `error.error`), last section:
+    * `tieA_from_call`, `tieA_error_shown` — probes of the two functions on the tree under test;
+    * `C04_src_unpacking_irrelevant`, `C04_src_recorded`, `C04_src_keyword_recorded` — `**mapping` entries are
+      looked through wherever they are written, every explicit keyword reaches `construct_call_swaps`;
+    * `C04_src_partial_strict` — `C04_at` for the written call (known classes stated on its explicit part);
+    * `C04_error_shown_every_level`, `C04_src_rejected_shown` — a rejected call puts an `error` (`fatal` under
+      --strict) line on stderr at EVERY warning level, although it is raised with no current file;
+    * `C04_main_rejected_shown` — the same through the model of the whole `main` (`MainRun.mainOf`): a rejected
+      edge of any call tree puts an `error` line on stderr for every `cfg.warnLevel` (`runEvents_error_printed`);
+      `C04_main_test_module_shown` — kernel evaluation of `MainRun.main` on the test module, four levels.
 -/
 import RattrModel.Swaps
 import RattrModel.Spec.PyBind
@@ -44,6 +57,8 @@ import RattrProofs.Lemmas.Swaps
 import RattrModel.Results
 import RattrModel.Pipeline
 import RattrProofs.Lemmas.Pipeline
+import RattrModel.SrcCall
+import RattrModel.MainRun
 
 namespace Rattr.C04
 open Rattr Rattr.Swaps
@@ -1207,6 +1222,42 @@ theorem C04_mkCall_self (s : St) (name : Str) (args : List Rattr.Node) (kwn : Li
           k s { name := Strs.withoutCallBrackets name, args := x :: as, kwargs := kws, target := target } :=
   rfl
 
+theorem kwargNames_skip (s : St) (kn₁ kn₂ : List (Option Str)) (kv₁ kv₂ : List Rattr.Node) (v : Rattr.Node)
+    (hl : kn₁.length = kv₁.length) (cont : St → List (Str × Str) → Res) :
+    FnA.kwargNames s (kn₁ ++ none :: kn₂) (kv₁ ++ v :: kv₂) cont
+      = FnA.kwargNames s (kn₁ ++ kn₂) (kv₁ ++ kv₂) cont := by
+  induction kn₁ generalizing kv₁ cont with
+  | nil =>
+    cases kv₁ with
+    | nil => simp [FnA.kwargNames]
+    | cons _ _ => simp at hl
+  | cons k r ih =>
+    cases kv₁ with
+    | nil => simp at hl
+    | cons w t =>
+      have hl' : r.length = t.length := by simpa using hl
+      cases k with
+      | none => simpa [FnA.kwargNames] using ih t hl' cont
+      | some k' =>
+        simp only [List.cons_append, FnA.kwargNames]
+        cases oldNames true w with
+        | ok a full => exact ih t hl' _
+        | fatal d => rfl
+        | crash e => rfl
+
+/-- `Call.from_call` in the pipeline model (the record that the file walk stores and result generation
+binds): a `**mapping` entry among the keywords — wherever it is written, before, between or after the
+explicit ones — changes neither the recorded call nor the diagnostics; its value is not even named. -/
+theorem C04_mkCall_unpacking_irrelevant (s : St) (name : Str) (args : List Rattr.Node)
+    (kn₁ kn₂ : List (Option Str)) (kv₁ kv₂ : List Rattr.Node) (v : Rattr.Node)
+    (hl : kn₁.length = kv₁.length) (target : Option Sym) (self : Option Str) (k : St → CallSym → Res) :
+    FnA.mkCall s name args (kn₁ ++ none :: kn₂) (kv₁ ++ v :: kv₂) target self k
+      = FnA.mkCall s name args (kn₁ ++ kn₂) (kv₁ ++ kv₂) target self k := by
+  unfold FnA.mkCall
+  congr 1
+  funext s' as
+  exact kwargNames_skip s' kn₁ kn₂ kv₁ kv₂ v hl _
+
 /-- hypotheses of `C04_unbind_swap` / `C04_inline_positional` are satisfiable (tests, kernel
 evaluation): `def swap(a, b): a.first = 1`, `def caller(a, b): swap(b, a)`. -/
 example :
@@ -1223,5 +1274,315 @@ example :
   decide
 
 end Inlining
+
+/-! ## The call as written, the diagnostic as shown -/
+
+section Source
+open Rattr.SrcCall
+variable {α : Type} [DecidableEq α]
+
+/-! ### Tie A for the two code paths of this section -/
+
+/-- the probe call `f(p, *q, k1=a, **m, k2=b.c, **n, k3=d[0])` with `self='s'` as the model sees it -/
+def probeCall : SrcCall String :=
+  { pos := [(false, "p"), (true, "*q")],
+    kws := [(some "k1", "a"), (none, "m"), (some "k2", "b.c"), (none, "n"), (some "k3", "d[]")] }
+
+/-- `CallArguments.from_call` of the tree under test records the probe call as the model does: the
+implicit `self` first, `*iterable` kept as a positional (one error), `**mapping` entries skipped wherever
+they are written, every explicit keyword kept. -/
+theorem tieA_from_call :
+    toArgs (some "s") probeCall
+      = { args := Generated.C04.fromCallProbeArgs, kwargs := Generated.C04.fromCallProbeKwargs } ∧
+    starredErrors probeCall = Generated.C04.fromCallProbeErrors := by decide
+
+def placeOfName : String → Option Diag.Where
+  | "target" => some .target | "import" => some .import_ | "none" => some .none | _ => none
+
+/-- `error.error` of the tree under test prints its line at every warning level and wherever the
+diagnostic arises (also with no current file, i.e. during result simplification) — as `Diag.error`. -/
+theorem tieA_error_shown :
+    Generated.C04.errorShownProbe =
+      (Diag.WarnLevel.every.flatMap fun w => [Diag.Where.target, .import_, .none].map fun l =>
+        (w.name, (match l with | .target => "target" | .import_ => "import" | .none => "none"),
+         decide ((Diag.error ⟨false, 0, w, false, false⟩ Diag.State.init l 5).printed = [⟨.error, l⟩]))) := by
+  decide
+
+/-! ### `CallArguments.from_call`: `**mapping` entries are looked through, wherever they are written -/
+
+theorem kwargsInto_skip (l₁ l₂ : List (Option α × α)) (v : α) (d : Dict α α) :
+    kwargsInto (l₁ ++ (none, v) :: l₂) d = kwargsInto (l₁ ++ l₂) d := by
+  induction l₁ generalizing d with
+  | nil => rfl
+  | cons x r ih =>
+    obtain ⟨k, w⟩ := x
+    cases k <;> simp [kwargsInto, ih]
+
+/-- **the position (and the presence) of a `**mapping` does not matter**: the recorded call of
+`f(…, k1=a, **m, k2=b)` is that of `f(…, k1=a, k2=b)`. -/
+theorem C04_src_unpacking_irrelevant (self : Option α) (pos : List (Bool × α))
+    (l₁ l₂ : List (Option α × α)) (v : α) :
+    toArgs self ⟨pos, l₁ ++ (none, v) :: l₂⟩ = toArgs self ⟨pos, l₁ ++ l₂⟩ := by
+  simp [toArgs, kwargsInto_skip]
+
+theorem dict_set_fresh (d : Dict α α) (k v : α) (h : k ∉ d.map Prod.fst) :
+    Dict.set d k v = d ++ [(k, v)] := by
+  induction d with
+  | nil => rfl
+  | cons x r ih =>
+    obtain ⟨k', v'⟩ := x
+    simp only [List.map_cons, List.mem_cons, not_or] at h
+    have hne : ¬ k' = k := fun e => h.1 e.symm
+    simp [Dict.set, hne, ih h.2]
+
+theorem kwargsInto_explicit (l : List (Option α × α)) (d : Dict α α)
+    (h : (d.map Prod.fst ++ (explicit l).map Prod.fst).Nodup) :
+    kwargsInto l d = d ++ explicit l := by
+  induction l generalizing d with
+  | nil => simp [kwargsInto, explicit]
+  | cons x r ih =>
+    obtain ⟨k, v⟩ := x
+    cases k with
+    | none =>
+      have : explicit ((none, v) :: r) = explicit r := by simp [explicit]
+      rw [this] at h ⊢
+      simpa [kwargsInto] using ih d h
+    | some k =>
+      have hx : explicit ((some k, v) :: r) = (k, v) :: explicit r := by simp [explicit]
+      rw [hx] at h ⊢
+      have hk : k ∉ d.map Prod.fst := by
+        intro hm
+        have := List.nodup_append.mp h
+        exact this.2.2 k hm k (by simp) rfl
+      simp only [kwargsInto]
+      rw [dict_set_fresh d k v hk]
+      have h' : ((d ++ [(k, v)]).map Prod.fst ++ (explicit r).map Prod.fst).Nodup := by
+        simpa [List.append_assoc] using h
+      rw [ih _ h']
+      simp
+
+/-- **the recorded call is the explicit part of the written call**: the implicit `self` first, the
+positionals in order, exactly the explicit keywords in the order written (explicit keyword names are
+pairwise distinct — CPython's compiler rejects a repeated keyword). -/
+theorem C04_src_recorded (self : Option α) (c : SrcCall α)
+    (h : ((explicit c.kws).map Prod.fst).Nodup) :
+    toArgs self c = { args := self.toList ++ c.pos.map Prod.snd, kwargs := explicit c.kws } := by
+  simp only [toArgs]
+  rw [kwargsInto_explicit c.kws [] (by simpa using h)]
+  simp
+
+/-- an explicit keyword reaches `construct_call_swaps` whatever is written around it -/
+theorem C04_src_keyword_recorded (self : Option α) (c : SrcCall α)
+    (h : ((explicit c.kws).map Prod.fst).Nodup) (k v : α) (hm : (some k, v) ∈ c.kws) :
+    (k, v) ∈ (toArgs self c).kwargs := by
+  rw [C04_src_recorded self c h]
+  simp only [explicit, List.mem_filterMap]
+  exact ⟨(some k, v), hm, rfl⟩
+
+/-- **C04 for the call as written**: outside the three known classes (stated on the explicit part) a
+written call — with any number of `**mapping` entries anywhere among its keywords — gets exactly
+Python's binding of its explicit part and no diagnostic; rejected ⇒ diagnosed. -/
+theorem C04_src_partial_strict (si : StandIns α) (s : Spec.Sig α) (self : Option α) (c : SrcCall α)
+    (hn : s.iface.all.Nodup) (hk : ((explicit c.kws).map Prod.fst).Nodup)
+    (hX : ¬ Excluded s { args := self.toList ++ c.pos.map Prod.snd, kwargs := explicit c.kws }) :
+    C04_at si s (toArgs self c) := by
+  rw [C04_src_recorded self c hk]
+  exact C04_partial_strict si s _ hn hk hX
+
+/-! ### the arity diagnostic AS SHOWN: `error.error` has no filter -/
+
+/-- `error.error` prints a line (level `error`, or `fatal` under --strict) for EVERY configuration —
+any warning level, strict or not — and wherever it is raised. -/
+theorem C04_error_shown_every_level (cfg : Diag.Cfg) (st : Diag.State) (l : Diag.Where) (b : Nat) :
+    ∃ ln ∈ (Diag.error cfg st l b).printed, (ln.level = .error ∨ ln.level = .fatal) ∧ ln.loc = l := by
+  unfold Diag.error
+  by_cases h : (b > 0 && cfg.strict) = true
+  · simp [h, Diag.fatal]
+  · simp [h]
+
+/-- **rejected ⇒ an error line on stderr, at every warning level**: for a call as written whose
+recorded form Python rejects for an arity reason other than a missing argument, the first thing
+`construct_call_swaps` puts on stderr is an `error` (under --strict: `fatal`) line — whatever
+`--warning-level` is, although the diagnostic is raised with no current file. -/
+theorem C04_src_rejected_shown (cfg : Diag.Cfg) (st : Diag.State) (si : StandIns α) (s : Spec.Sig α)
+    (self : Option α) (c : SrcCall α) (hn : s.iface.all.Nodup) (e : Spec.BindErr)
+    (h : Spec.pyBind s (toArgs self c) = .error e) (he : e ≠ .missingRequired) :
+    ∃ ln ∈ (arityShown cfg st si s.iface self c).printed,
+      (ln.level = .error ∨ ln.level = .fatal) ∧ ln.loc = .none := by
+  have hd := C04_rejected_diagnosed si s (toArgs self c) hn e h he
+  unfold arityShown
+  cases hds : (construct si s.iface (toArgs self c)).2 with
+  | nil => exact absurd hds hd
+  | cons d r =>
+    obtain ⟨ln, hln, hp⟩ := C04_error_shown_every_level cfg st .none 5
+    refine ⟨ln, ?_, hp⟩
+    simp only [arityEvents, List.map_cons, Diag.runEvents, Diag.emit]
+    by_cases hx : (Diag.error cfg st Diag.Where.none 5).exited = true
+    · simp only [hx, ↓reduceIte]; exact hln
+    · simp only [hx]; exact List.mem_append_left _ hln
+
+end Source
+
+/-- `callee(x0, x1, **m, k=v1, **n, extra=v2)` -/
+def srcEx1 : SrcCall Nat :=
+  { pos := [(false, 50), (false, 51)], kws := [(none, 60), (some 5, 52), (none, 61), (some 7, 53)] }
+/-- `def g(a, *, k)` -/
+def sigEx2 : Spec.Sig Nat :=
+  { posonly := [], args := [⟨2, false⟩], vararg := none, kwonly := [⟨5, false⟩], kwarg := none }
+/-- `g(x, **m, zz=w, k=v)` -/
+def srcEx2 : SrcCall Nat := { pos := [(false, 50)], kws := [(none, 60), (some 7, 53), (some 5, 52)] }
+
+/-- hypotheses of `C04_src_partial_strict` / `C04_src_rejected_shown` are satisfiable (tests, kernel
+evaluation): `def callee(p, /, a, b=0, *va, k, **kw)`; `callee(x0, x1, **m, k=v1, **n, extra=v2)` is bound
+as Python binds its explicit part; `def g(a, *, k)`, `g(x, **m, zz=w, k=v)` is rejected and shown under
+`-w none`. -/
+example :
+    ((SrcCall.explicit srcEx1.kws).map Prod.fst).Nodup ∧
+    ¬ Excluded sigEx { args := [50, 51], kwargs := SrcCall.explicit srcEx1.kws } ∧
+    construct siN sigEx.iface (SrcCall.toArgs none srcEx1) = ([(1, 50), (2, 51), (4, 100), (5, 52), (6, 101)], []) ∧
+    Spec.pyBind sigEx2 (SrcCall.toArgs none srcEx2) = .error .unexpectedKeyword ∧
+    (SrcCall.arityShown ⟨false, 0, .none, false, false⟩ Diag.State.init siN sigEx2.iface none srcEx2).printed
+      = [⟨.error, .none⟩] := by
+  decide
+
+
+section Shown
+open Rattr.Results Rattr.Pipeline Rattr.FnA Rattr.FileA
+
+/-! ### rejected ⇒ an error line on stderr, through the model of the whole `main`, at every warning level -/
+
+theorem emit_not_exited (cfg : Diag.Cfg) (hs : cfg.strict = false) (s : Diag.State) (e : Diag.Event)
+    (he : e.level ≠ .fatal) : (Diag.emit cfg s e).exited = false := by
+  obtain ⟨lv, b, l⟩ := e
+  cases lv
+  · simp only [Diag.emit, Diag.info]; (repeat' split) <;> rfl
+  · simp only [Diag.emit, Diag.warning]; (repeat' split) <;> rfl
+  · simp [Diag.emit, Diag.error, hs]
+  · exact absurd rfl he
+
+theorem emit_error_printed (cfg : Diag.Cfg) (hs : cfg.strict = false) (s : Diag.State) (e : Diag.Event)
+    (he : e.level = .error) : (Diag.emit cfg s e).printed = [⟨.error, e.loc⟩] := by
+  obtain ⟨lv, b, l⟩ := e
+  simp only at he
+  subst he
+  simp [Diag.emit, Diag.error, hs]
+
+/-- not strict, no fatal diagnostic among the events: every `error` event is a printed line —
+the warning level (`cfg.warnLevel`) and the place of the event do not enter. -/
+theorem runEvents_error_printed (cfg : Diag.Cfg) (hs : cfg.strict = false) (s : Diag.State)
+    (evs : List Diag.Event) (hnf : ∀ e ∈ evs, e.level ≠ .fatal) (e : Diag.Event) (hm : e ∈ evs)
+    (he : e.level = .error) : ⟨.error, e.loc⟩ ∈ (Diag.runEvents cfg s evs).printed := by
+  induction evs generalizing s with
+  | nil => cases hm
+  | cons x r ih =>
+    have hx := emit_not_exited cfg hs s x (hnf x (by simp))
+    simp only [Diag.runEvents, hx, Bool.false_eq_true, if_false]
+    rcases List.mem_cons.mp hm with rfl | hm'
+    · rw [emit_error_printed cfg hs s e he]; simp
+    · exact List.mem_append_right _ (ih _ (fun y hy => hnf y (List.mem_cons_of_mem _ hy)) hm')
+
+theorem run_printed_sup (cfg : Diag.Cfg) (evs : List Diag.Event) (ln : Diag.Line)
+    (h : ln ∈ (Diag.runEvents cfg Diag.State.init evs).printed) : ln ∈ (Diag.run cfg evs).printed := by
+  unfold Diag.run
+  simp only []
+  split
+  · exact h
+  · split
+    · exact h
+    · exact List.mem_append_left _ h
+
+/-- `MainRun.staged` is `Pipeline.run` with the phases kept apart (successful runs). -/
+theorem staged_of_run {env : FnA.Env} {mn : Str} {f : Facts} {b : List Str} {body : List Top}
+    {imp : ImpFacts} {doc : ResultsDoc} {ds : List Rattr.Diag}
+    (h : run env mn f b body imp = .ok (doc, ds)) :
+    ∃ st, MainRun.staged env mn f b body imp = .ok st ∧ st.doc = some doc
+      ∧ st.analysis ++ st.simpl = ds := by
+  unfold run runWith at h
+  unfold MainRun.staged MainRun.stagedWith
+  cases hc : RootCtx.compile f b body with
+  | fatal r d => simp [hc] at h
+  | crash r e => simp [hc] at h
+  | ok r =>
+    simp only [hc] at h ⊢
+    by_cases hst : hasStarred r.ctx = true
+    · simp [hst] at h
+    · simp only [hst] at h ⊢
+      cases ha : FileA.analyseWith env mn f r.ctx body with
+      | fatal s d => simp [ha] at h
+      | crash s e => simp [ha] at h
+      | ok s =>
+        simp only [ha] at h ⊢
+        cases hr : results id f imp s.ir with
+        | fatal ds' d => simp [hr] at h
+        | crash e => simp [hr] at h
+        | ok p =>
+          obtain ⟨doc', ds'⟩ := p
+          simp only [hr] at h ⊢
+          injection h with h
+          injection h with h1 h2
+          exact ⟨_, rfl, by simp [h1], by simp [← h2, List.append_assoc]⟩
+
+/-- **rejected ⇒ an `error` line on stderr, at every warning level, through the model of `main`.**
+`python -m rattr -w <any level> -o results -f 0 file.py`, not --strict, a run that reaches the results
+(model `Pipeline.run` = ok) and raises no fatal diagnostic: for every edge of every call tree whose
+arguments Python rejects against the callee's signature for an arity reason other than a missing
+argument, the lines `MainRun.mainOf` prints on stderr contain an `error` line — `cfg.warnLevel` is
+universally quantified (`none`, `local`, `default`, `all`), although the diagnostic is raised during
+result simplification, where no file is current. -/
+theorem C04_main_rejected_shown (cfg : Diag.Cfg) (hs : cfg.strict = false)
+    {env : FnA.Env} {mn : Str} {f : Facts} {b : List Str}
+    {body : List Top} {imp : ImpFacts} {doc : ResultsDoc} {ds : List Rattr.Diag}
+    (h : run env mn f b body imp = .ok (doc, ds)) (hnf : ∀ d ∈ ds, d.lvl ≠ .fatal) :
+    ∃ st r s, MainRun.staged env mn f b body imp = .ok st ∧
+      RootCtx.compile f b body = .ok r ∧ FileA.analyseWith env mn f r.ctx body = .ok s ∧
+      ∀ root, root < s.ir.length → ∀ nodes, callTree (toProg id f imp s.ir) root = some nodes →
+      ∀ i, i < nodes.length → ∀ ch ∈ childrenOf nodes i, ∀ c, ch.edgeIn = some c →
+      ∀ sg : Spec.Sig Str, sg.iface = (fnAt (toProg id f imp s.ir) ch.key).iface → sg.iface.all.Nodup →
+      ∀ e, Spec.pyBind sg c.args = .error e → e ≠ .missingRequired →
+      ∃ ln ∈ (MainRun.mainOf cfg st).diag.printed, ln.level = .error := by
+  obtain ⟨st, hst, -, hds⟩ := staged_of_run h
+  obtain ⟨r, s, hr, ha, hall⟩ := C04_pipeline_rejected_diagnosed h
+  refine ⟨st, r, s, hst, hr, ha, ?_⟩
+  intro root hroot nodes hnodes i hi ch hch c he sg hsg hn e hrej hne
+  obtain ⟨d, hd, hlvl, -⟩ := hall root hroot nodes hnodes i hi ch hch c he sg hsg hn e hrej hne
+  -- the event of `d`
+  have hlev : ∀ (loc : Diag.Where) (x : Rattr.Diag), (MainRun.eventOf loc x).level = MainRun.levelOf x.lvl := fun _ _ => rfl
+  have hnf' : ∀ ev ∈ MainRun.events st, ev.level ≠ .fatal := by
+    intro ev hev
+    unfold MainRun.events at hev
+    rcases List.mem_append.mp hev with hm | hm
+    all_goals
+      obtain ⟨x, hx, rfl⟩ := List.mem_map.mp hm
+      have hxd : x ∈ ds := by rw [← hds]; simp [hx]
+      have := hnf x hxd
+      rw [hlev]
+      cases hxl : x.lvl <;> simp_all [MainRun.levelOf]
+  rw [← hds] at hd
+  have hev : ∃ ev ∈ MainRun.events st, ev.level = .error := by
+    unfold MainRun.events
+    rcases List.mem_append.mp hd with hm | hm
+    · exact ⟨MainRun.eventOf .target d, List.mem_append_left _ (List.mem_map_of_mem hm), by rw [hlev, hlvl]; rfl⟩
+    · exact ⟨MainRun.eventOf .none d, List.mem_append_right _ (List.mem_map_of_mem hm), by rw [hlev, hlvl]; rfl⟩
+  obtain ⟨ev, hevm, hevl⟩ := hev
+  have hp := runEvents_error_printed cfg hs Diag.State.init (MainRun.events st) hnf' ev hevm hevl
+  exact ⟨⟨.error, ev.loc⟩, run_printed_sup cfg _ _ hp, rfl⟩
+
+/-- the hypotheses of `C04_main_rejected_shown` are satisfiable: the test module of
+`C04_pipeline_test_module` (its only diagnostic is the arity error of `stub(e, f, g)`), `-w none`. -/
+example := C04_main_rejected_shown ⟨false, 0, .none, false, false⟩ rfl C04_pipeline_test_module (by decide)
+
+def printedIs (o : Except Str MainRun.Result) (ls : List Diag.Line) : Bool :=
+  match o with
+  | .ok r => decide (r.diag.printed = ls) && decide (r.diag.exit = 0)
+  | _ => false
+
+/-- TEST (kernel evaluation of the model of the whole `main` on the test module): the arity error of
+`stub(e, f, g)` is the one line on stderr, the exit status is 0 — under each of the four warning levels. -/
+theorem C04_main_test_module_shown :
+    ∀ w ∈ Diag.WarnLevel.every,
+      printedIs (MainRun.main ⟨false, 0, w, false, false⟩ envT (T' "target") {} [] modT) [⟨.error, .none⟩] = true := by
+  decide +kernel
+
+end Shown
 
 end Rattr.C04
